@@ -213,7 +213,7 @@ def r2_lifetime(ck, F):
             regs = set(re.findall(r"'(\w+)", out))
             ck.ob(R, f"returned-borrow-tied-to-receiver/{p}", regs <= {recv[2]} and bool(regs), f"every region of the return type ({sorted(regs)}) is the region of `&'{recv[2]} mut {recv[1]}`", b)
         ck.ob(R, f"extended-borrow-comes-from-self/{p}", len(roots) == 1 and len(srcs) >= 2, f"the references whose lifetime is extended are reached through {roots} (must be the exclusively borrowed receiver only: not a local that dies at return)", b)
-    ck.floor(R, "lifetime-extending functions", n, 6, F.config)
+    ck.floor(R, "lifetime-extending functions", n, 3, F.config)   # 6 on the pinned tree; twins may share one helper
     te = F.fns.get(A("transmute_entry"))
     ck.ob(R, "helper-private", te is not None and not te["pub"] and te["unsafe"], f"transmute_entry_to_static is `unsafe fn`, visibility {te['vis'] if te else '?'}", config=F.config)
 
